@@ -85,6 +85,10 @@ def components(rng, quick):
     C.append(Comp("WagnerSoftDecisionDecoder/SPC(4)", "WagnerSoftDecisionDecoder", lambda: D.WagnerSoftDecisionDecoder(E.SingleParityCheckCodeEncoder(4)), llr_pool(5)))
     C.append(Comp("BeliefPropagationDecoder/LDPC(3x6)", "BeliefPropagationDecoder", lambda: D.BeliefPropagationDecoder(E.LDPCCodeEncoder(check_matrix=H6), bp_iters=4), llr_pool(6)))
     C.append(Comp("MinSumLDPCDecoder/LDPC(3x6)", "MinSumLDPCDecoder", lambda: D.MinSumLDPCDecoder(E.LDPCCodeEncoder(check_matrix=H6), bp_iters=4), llr_pool(6)))
+    C.append(Comp("BeliefPropagationDecoder(soft)/Hamming(7,4)", "BeliefPropagationDecoder", lambda: D.BeliefPropagationDecoder(E.HammingCodeEncoder(3), bp_iters=10),
+                  llr_pool(7) + [torch.tensor([0.5, -1.5, -2.0, 2.5, 2.0, -1.0, -1.5])], call=lambda o, x: o(x, return_soft=True)[1]))
+    C.append(Comp("MinSumLDPCDecoder(soft)/LDPC(3x6)", "MinSumLDPCDecoder", lambda: D.MinSumLDPCDecoder(E.LDPCCodeEncoder(check_matrix=H6), bp_iters=6), llr_pool(6),
+                  call=lambda o, x: o(x, return_soft=True)[1]))
     C.append(Comp("SuccessiveCancellationDecoder/Polar(8,4)", "SuccessiveCancellationDecoder", lambda: D.SuccessiveCancellationDecoder(quiet(E.PolarCodeEncoder, 4, 8)), llr_pool(8), three_d=False))
     C.append(Comp("BeliefPropagationPolarDecoder/Polar(8,4)", "BeliefPropagationPolarDecoder",
                   lambda: quiet(D.BeliefPropagationPolarDecoder, quiet(E.PolarCodeEncoder, 4, 8, frozen_zeros=True)), llr_pool(8), three_d=False))
